@@ -18,7 +18,8 @@ import (
 func init() {
 	register(&RuleSet{
 		ID: "C04",
-		Explanation: "R1 order (ESP on sev.LaunchDigest): measurement events occur in the order ROM (Update with the constant PageTypeNormal) → zero-content metadata pages → VMSA pages (Update with PageTypeVmsa); a nil return needs the ROM event; the ROM event's address operand is RomTop − len(image) and the VMSA events' address is ProductHighAddress of the options' product. " +
+		Explanation: "R10 a loop of package ovmf over a count decoded from the image is bounded by that count itself, never by a clamped copy (φ with a constant, min). " +
+			"R1 order (ESP on sev.LaunchDigest): measurement events occur in the order ROM (Update with the constant PageTypeNormal) → zero-content metadata pages → VMSA pages (Update with PageTypeVmsa); a nil return needs the ROM event; the ROM event's address operand is RomTop − len(image) and the VMSA events' address is ProductHighAddress of the options' product. " +
 			"R2 kind table: the mapping from OVMF section kind to SNP page type covers exactly the section-kind constants declared in ovmf/abi, maps them to {unmeasured, secret, cpuid, zero} respectively (constants checked by value) and rejects every other kind. " +
 			"R3 purity: no store / copy in the call closure of LaunchDigest and UnsignedSnp writes through the image parameter. " +
 			"R9 in package ovmf no integer read from a map without comma-ok is compared with 0 to decide presence (0 is a legitimate address; the duplicate CPUID/secrets test relies on presence). " +
@@ -36,6 +37,7 @@ func init() {
 }
 
 func runC04(c *Ctx) {
+	defer c04DeclaredCounts(c)
 	// R8 = C06.R5/R7/R8 on the SEV side: each per-count digest is computed with that count and the requested product.
 	c.borrow("R8/C06.", runC06, func(rule, construct string) bool {
 		return (rule == "R8" || rule == "R7" || rule == "R5") && strings.Contains(construct, "sev.")
@@ -880,4 +882,104 @@ func (c *Ctx) putIntoList(v ssa.Value, depth int) bool {
 		}
 	}
 	return false
+}
+
+// c04DeclaredCounts — R10: every section the image declares is parsed. A counted loop of package ovmf whose bound comes
+// from a count field decoded from the image (a field of an ovmf/abi structure) runs up to that field itself
+// (conversions aside): the bound is not a φ that merges the field with a constant, nor min(field, k). A clamped
+// bound silently drops the descriptors beyond it — they are neither measured nor validated — while the header's
+// own consistency checks still pass on the declared count.
+func c04DeclaredCounts(c *Ctx) {
+	abiPkg := repoPath("ovmf/abi")
+	decoded := func(v ssa.Value) bool {
+		ld, ok := v.(*ssa.UnOp)
+		if !ok || ld.Op != token.MUL {
+			return false
+		}
+		fa, ok := ld.X.(*ssa.FieldAddr)
+		if !ok {
+			return false
+		}
+		t := fa.X.Type()
+		if p, ok := t.Underlying().(*types.Pointer); ok {
+			t = p.Elem()
+		}
+		n, ok := t.(*types.Named)
+		return ok && n.Obj().Pkg() != nil && n.Obj().Pkg().Path() == abiPkg
+	}
+	strip := func(v ssa.Value) ssa.Value {
+		for i := 0; i < 6; i++ {
+			switch x := v.(type) {
+			case *ssa.Convert:
+				v = x.X
+			case *ssa.ChangeType:
+				v = x.X
+			default:
+				return v
+			}
+		}
+		return v
+	}
+	nDirect := 0
+	for _, f := range c.P.RepoFunctions() {
+		if load.RelPkg(f) != "ovmf" || c.isTestFunc(f) || f.Blocks == nil {
+			continue
+		}
+		for _, L := range naturalLoops(f) {
+			iff, ok := L.Header.Instrs[len(L.Header.Instrs)-1].(*ssa.If)
+			if !ok {
+				continue
+			}
+			bo, ok := iff.Cond.(*ssa.BinOp)
+			if !ok || (bo.Op != token.LSS && bo.Op != token.LEQ) {
+				continue
+			}
+			if ph, ok := bo.X.(*ssa.Phi); !ok || ph.Block() != L.Header {
+				continue
+			}
+			b := strip(bo.Y)
+			if decoded(b) {
+				nDirect++
+				c.S.OK("R10", load.FuncName(f)+":loop over a declared count", c.pos(iff.Cond.Pos()), "bounded by the decoded count field itself", false)
+				continue
+			}
+			clamp := ""
+			switch x := b.(type) {
+			case *ssa.Phi:
+				hasK, hasField := false, false
+				for _, e := range x.Edges {
+					e = strip(e)
+					if _, ok := e.(*ssa.Const); ok {
+						hasK = true
+					}
+					if decoded(e) {
+						hasField = true
+					}
+				}
+				if hasK && hasField {
+					clamp = "a value that is either the declared count or a constant"
+				}
+			case *ssa.Call:
+				if bi, ok := x.Call.Value.(*ssa.Builtin); ok && (bi.Name() == "min" || bi.Name() == "max") {
+					hasK, hasField := false, false
+					for _, a := range x.Call.Args {
+						a = strip(a)
+						if _, ok := a.(*ssa.Const); ok {
+							hasK = true
+						}
+						if decoded(a) {
+							hasField = true
+						}
+					}
+					if hasK && hasField {
+						clamp = bi.Name() + "(declared count, constant)"
+					}
+				}
+			}
+			if clamp != "" {
+				c.S.Bad("R10", load.FuncName(f)+":loop over a declared count", c.pos(iff.Cond.Pos()), "the loop that parses the declared entries is bounded by "+clamp+": entries beyond the constant are silently dropped — not measured, not validated — although the header declares them")
+			}
+		}
+	}
+	c.S.Floor("R10", "loops of package ovmf bounded by a count field decoded from the image", 1, nDirect)
 }
